@@ -2,6 +2,10 @@
 //! on loopback QUIC, with a raw wire-protocol peer and a scripted fake server.
 
 mod c03;
+mod c04;
+mod c12;
+mod c15;
+mod c17;
 mod certs;
 mod net;
 mod util;
@@ -33,6 +37,10 @@ fn main() {
         rt.block_on(async move {
             match id.as_str() {
                 "C03" => c03::run(&run_tier, replaying).await,
+                "C04" => c04::run(&run_tier, replaying).await,
+                "C12" => c12::run(&run_tier, replaying).await,
+                "C15" => c15::run(&run_tier, replaying).await,
+                "C17" => c17::run(&run_tier, replaying).await,
                 _ => machinery_failure("e2elab serves C03 C04 C07 C11 C12 C15 C16 C17"),
             }
         })
